@@ -55,7 +55,8 @@ def check_case(ctx, case, enum=False, sk_cache=None):
     try:
         from .c01 import as_type, PAYLOAD_TYPES
         ptype = case.get("ptype") or PAYLOAD_TYPES[(dd + k + len(digest)) % len(PAYLOAD_TYPES)]
-        rs = sk.sign_digest(as_type(digest, ptype), k=k, allow_truncate=at, sigencode=SU.rs_tuple)
+        imp = {} if (at is False and (dd + k) % 2) else {"allow_truncate": at}          # default left implicit
+        rs = sk.sign_digest(as_type(digest, ptype), k=k, sigencode=SU.rs_tuple, **imp)
         got = ("sig", tuple(int(v) for v in rs))
     except RSZeroError:
         got = ("rszero",)
